@@ -102,6 +102,8 @@ def c18_matmul(E, s):
         shp = [E.dim('b%d' % i, 1, B) for i in range(nb)] + [E.dim('yN%d' % k, 1, B) for k in range(s['d2'])]
         y = E.stensor('y', shp)
         Ny, My = shp, None
+    elif s.get('alias'):
+        y, Ny, My = x, Nx, Mx                 # the same object on both sides
     else:
         y, Ny, My, _ = s_tt(E, 'y', s['d2'], s['k2'], B)
     ok, z, exc = attempt(E, lambda: x @ y)
@@ -128,7 +130,10 @@ def c18_matmul(E, s):
 def c18_dot(E, s):
     B = s.get('B', 3)
     a, Na, Ma, _ = s_tt(E, 'a', s['d1'], s['k1'], B)
-    b, Nb, Mb, _ = s_tt(E, 'b', s['d2'], s['k2'], B)
+    if s.get('alias'):
+        b, Nb, Mb = a, Na, Ma                 # the same object in both positions
+    else:
+        b, Nb, Mb, _ = s_tt(E, 'b', s['d2'], s['k2'], B)
     axis = s.get('axis')
     ok, z, exc = attempt(E, (lambda: E.tt.dot(a, b)) if axis is None else (lambda: E.tt.dot(a, b, list(axis))))
     if s['k1'] != 'tt' or s['k2'] != 'tt':
@@ -151,8 +156,12 @@ def c18_bilinear(E, s):
     x, Nx, _, _ = s_tt(E, 'x', s.get('dx', d), s.get('kx', 'tt'), B)
     A, NA, MA, _ = s_tt(E, 'A', d, s.get('kA', 'ttm'), B)
     y, Ny, _, _ = s_tt(E, 'y', s.get('dy', d), s.get('ky', 'tt'), B)
+    if s.get('alias') == 'xy':
+        y, Ny = x, Nx                          # the same object as both vectors
+    elif s.get('alias') == 'all':
+        x, Nx, y, Ny = A, NA, A, NA            # one operator object in all three positions
     ok, z, exc = attempt(E, lambda: E.tt.bilinear_form(x, A, y))
-    if s.get('kx', 'tt') != 'tt' or s.get('ky', 'tt') != 'tt' or s.get('kA', 'ttm') != 'ttm':
+    if s.get('kx', 'tt') != 'tt' or s.get('ky', 'tt') != 'tt' or s.get('kA', 'ttm') != 'ttm' or s.get('alias') == 'all':
         compat = False
     else:
         compat = all_eq(Nx, MA) & all_eq(Ny, NA)
@@ -297,7 +306,14 @@ def c18_unary_args(E, s):
         pn = 1
         for n in N:
             pn = pn * n
-        tgt = {'two': [pn, -1, -1], 'neg_all': [-n for n in N], 'one': [pn, -1]}[s['form']] if kind == 'tt' else None
+        if kind == 'tt':
+            tgt = {'two': [pn, -1, -1], 'neg_all': [-n for n in N], 'one': [pn, -1]}[s['form']]
+        else:
+            pm = 1
+            for m in M:
+                pm = pm * m
+            tgt = {'pairs_neg': [(-m, -n) for m, n in zip(M, N)], 'two': [(pm, pn), (-1, -1), (-1, -1)], 'rows_neg': [(-m, n) for m, n in zip(M, N)],
+                   'one': [(pm, pn), (-1, -1)], 'mixed': [(-m, -n) if i < 2 else (m, n) for i, (m, n) in enumerate(zip(M, N))]}[s['form']]
         ok, z, exc = attempt(E, lambda: tt.reshape(x, tgt))
         compat = False
     elif what == 'apply_mask_cols':
